@@ -58,7 +58,7 @@ def shards(ctx):
               must_contain="@LONG"),
         # random longer documents (TLC simulation mode)
         shard("sim", N3, K2, '{"1", "x=y", "", "a b", "12", "a#b"}', noise="NoiseAll", maxlen=16, depth=3, opens=6, kv=7,
-              nnoise=3, unclosed=3, simulate=ctx.pick(400, 12000), keep=ctx.pick(500, 15000)),
+              nnoise=3, unclosed=3, simulate=ctx.pick(400, 8000), keep=ctx.pick(500, 15000)),
         shard("simbad", N3, K2, '{"1", "x=y"}', hos="HosTwo", noise="NoiseSome", maxlen=12, depth=3, opens=4, kv=4,
               nnoise=1, tail=2, unclosed=3, mismatch=True, simulate=ctx.pick(300, 4000), keep=ctx.pick(300, 4000)),
     ]
@@ -202,7 +202,7 @@ def report(ctx, v, rec, hexin=None):
         raise Inconclusive("the oracle refused a record as malformed (%s): %s" % (sig, json.dumps(rec)[:600]))
     what = WHAT.get(sig)
     if what is None and sig.startswith("wrong-result:"):
-        what = "well-formed document parsed successfully but %s differ(s) from the reference" % ", ".join(v.get("fs") or [sig[13:]])
+        what = "%s document parsed successfully but %s differ(s) from the reference" % (v.get("cls"), ", ".join(v.get("fs") or [sig[13:]]))
     if what is None:
         what = sig
     if rec.get("kind") == "fuzz":
